@@ -26,7 +26,7 @@ def BI(a, m, r):
           'real startResourceBinding step (stream management %s), then handlePacketReceived(%s)' % (['not offered', 'offered'][m], ['<iq type=result id=ID><bind><jid>2 arbitrary units, %s</jid></bind></iq>' % ['not a full JID', 'a full JID'][r], '<iq type=error id=ID><bind/></iq>', '<iq type=result id=ID/>'][a]),
           session=False, ev=a | m << 2, noreq=bool(m), tiers=Q if (a, m, r) in ((0, 0, 1), (0, 1, 1)) else T)
     i['cdefs'].update({'C10_RE_MATCHES': r})
-    if a == 0 and not r: i['cdefs']['QS_CAP'] = 96      # the error text 'Resource binding failed: ...' is longer than the default string capacity
+    if a == 0 and not r: i['cdefs']['QS_CAP'] = 96; i['model_loop_bound'] = 100      # the error text 'Resource binding failed: ...' is longer than the default string capacity
     return i
 DISC = 'socket disconnected (_q_socketDisconnected)'
 SE = 'socketError(any QAbstractSocket::SocketError), socket connected or not'
@@ -83,12 +83,10 @@ INST = (
        I('stream_error_condition', 'stream_error', 'handleStreamError(any defined stream error condition; text <= 2 units)', ev=0),
        I('redirect_roundtrip', 'redirect_roundtrip', 'handleStreamError(see-other-host), then socket disconnected', ev=1, session=False, N=1)]
 )
-import os
-if os.environ.get('C10_DEBUG'): INST = INST + [I('dbg', 'dbg', 'debug', session=False)]
 SPEC = dict(
     property='C10',
     groups=[
-        dict(name='step', harness='h.cpp', tus=TUS, models=MODELS, shadow_task=True, cxxdefs=({'C10_DEBUG': 1} if os.environ.get('C10_DEBUG') else {}),
+        dict(name='step', harness='h.cpp', tus=TUS, models=MODELS, shadow_task=True,
              loop_bounds={r'^_ZNSt6ranges14__copy_or_move': 110},
              instances=INST),
     ],
